@@ -96,6 +96,73 @@ MULTI = [
 ]
 
 
+# ------------------------------------------------------------------------------------------------ second class model
+# B: inheritance and key case.  A base class declares the required and the immutable field (its name is not all
+# lower-case); the subclass under test adds one field and carries the options (case_insensitive / immutable).
+SRC_B = '''
+class Base({base}):
+    name: str = Field(max_length=5)
+    userId: int = Field(immutable=True, default=1)
+class {name}(Base):
+{options}
+    extra: int = Field(ge=0, default=0)
+    ownId: int = Field(immutable=True, default=2)
+'''
+FIELDS_B = {
+    "ownId": ("ownId", ["ownId", "ownid"], [("3", "valid"), ("2", "valid")]),
+    "name": ("name", ["name", "NAME"], [("'bob'", "valid"), ("5", "conv"), ("'toolong'", "invalid")]),
+    "userId": ("userId", ["userId", "userid", "USERID"], [("2", "valid"), ("1", "valid")]),
+    "extra": ("extra", ["extra", "Extra"], [("3", "valid"), ("'4'", "conv"), ("-1", "invalid")]),
+}
+OPTION_SETS_B = ["", "case_insensitive=True", "immutable=True", "case_insensitive=True, addition=True"]
+INIT_B = ["S(name='al')", "S(name='al', extra=2)"]
+MULTI_B = ["s.update(S(name='zed', userId=7))", "s.update({'name': 'zed', 'extra': -1})", "s.update(S(name='zed', extra=5))"]
+PRED_B = {"name": lambda v: type(v) is str and len(v) <= 5, "userId": lambda v: type(v) is int, "ownId": lambda v: type(v) is int,
+          "extra": lambda v: type(v) is int and v >= 0}
+MODELS = {}
+_CUR_MODEL = ["A"]
+
+
+def use_model(m):
+    """switch the module-level tables (one shard = one model, shards run one after the other in a worker)"""
+    global SRC, FIELDS, OPTION_SETS, INIT, MULTI, PRED, HOLDER
+    if not MODELS:
+        MODELS["A"] = dict(SRC=SRC, FIELDS=FIELDS, OPTION_SETS=OPTION_SETS, INIT=INIT, MULTI=MULTI, PRED=PRED, HOLDER=HOLDER)
+        MODELS["B"] = dict(SRC=SRC_B, FIELDS=FIELDS_B, OPTION_SETS=OPTION_SETS_B, INIT=INIT_B, MULTI=MULTI_B, PRED=PRED_B, HOLDER="")
+    t = MODELS[m]
+    SRC, FIELDS, OPTION_SETS, INIT, MULTI, PRED, HOLDER = (t["SRC"], t["FIELDS"], t["OPTION_SETS"], t["INIT"], t["MULTI"],
+                                                           t["PRED"], t["HOLDER"])
+    _CUR_MODEL[0] = m
+
+
+def invariant_b(cls, inst, opt_expr, uid0, base):
+    bad = []
+    schema = base == "Schema"
+    d, a = snapshot(inst)
+    view = d if schema else a
+    if not isinstance(inst, cls):
+        return [("type-lost", f"the instance is now a {type(inst).__name__}")]
+    for k, v in view.items():
+        if k in PRED_B:
+            if not PRED_B[k](v):
+                bad.append((f"unparsed-{k}", f"{k!r} holds {v!r}, which does not conform to its declaration"))
+        elif schema and k.lower() in ("name", "userid", "extra", "ownid"):
+            bad.append(("alias-as-key", f"the case variant {k!r} is stored as a key of its own"))
+        elif schema and "addition=True" not in opt_expr:
+            bad.append(("stray-key", f"extra key {k!r} present although addition is not enabled"))
+    if "name" not in view:
+        bad.append(("required-missing", "required field 'name' is gone"))
+    if "userId" not in view:
+        bad.append(("immutable-removed", "immutable field userId was removed from the instance"))
+    elif view["userId"] != uid0:
+        bad.append(("immutable-changed", f"userId is {view['userId']!r}, initially {uid0!r}"))
+    if "ownId" not in view:
+        bad.append(("immutable-removed", "immutable field ownId (declared in the class itself) was removed from the instance"))
+    elif view["ownId"] != 2:
+        bad.append(("immutable-changed", f"ownId is {view['ownId']!r}, initially 2"))
+    return bad
+
+
 def operations(base, tier):
     """-> list of (label, python statement template over the instance variable s)"""
     ops = []
@@ -137,13 +204,18 @@ def operations(base, tier):
 
 
 def bounds(tier):
-    return dict(classes=["Schema", "DataClass"], option_sets=OPTION_SETS, initial_instances=len(INIT),
+    use_model("A")
+    return dict(classes=["Schema", "DataClass"], second_model="inherited fields + key case: option sets %r, depth +1" % (OPTION_SETS_B,),
+                option_sets=OPTION_SETS, initial_instances=len(INIT),
                 operations_schema=len(operations("Schema", tier)), operations_dataclass=len(operations("DataClass", tier)),
                 depth=4 if tier == "thorough" else 3)
 
 
 def shards(tier):
-    return [(base, oi, ii) for base in ("Schema", "DataClass") for oi in range(len(OPTION_SETS)) for ii in range(len(INIT))]
+    use_model("A")
+    out = [(base, oi, ii, "A") for base in ("Schema", "DataClass") for oi in range(len(OPTION_SETS)) for ii in range(len(INIT))]
+    out += [(base, oi, ii, "B") for base in ("Schema", "DataClass") for oi in range(len(OPTION_SETS_B)) for ii in range(len(INIT_B))]
+    return out
 
 
 _CODE = {}
@@ -219,6 +291,8 @@ PRED = {
 
 def invariant(cls, inst, opt_expr, uid0, base):
     """-> list of (kind, message) violations of the statement's invariant on one instance"""
+    if _CUR_MODEL[0] == "B":
+        return invariant_b(cls, inst, opt_expr, uid0, base)
     bad = []
     schema = base == "Schema"
     d, a = snapshot(inst)
@@ -313,15 +387,19 @@ def invariant(cls, inst, opt_expr, uid0, base):
 
 
 def run_shard(shard, tier):
-    base, oi, ii = shard
+    base, oi, ii, model = shard
+    use_model(model)
     acc = Acc()
     opt_expr = OPTION_SETS[oi]
     depth = 4 if tier == "thorough" else 3
+    if model == "B":
+        depth += 1          # a small alphabet: popitem has to get past the subclass field to reach the inherited ones
     cls, src, env = build_class(base, opt_expr)
     ops = operations(base, tier)
     init_expr = INIT[ii]
     inst0 = rebuild(cls, init_expr, [], env)
-    uid0 = snapshot(inst0)[0]["uid"] if base == "Schema" else snapshot(inst0)[1].get("uid")
+    ukey = "uid" if model == "A" else "userId"
+    uid0 = snapshot(inst0)[0][ukey] if base == "Schema" else snapshot(inst0)[1].get(ukey)
     for kind, msg in invariant(cls, inst0, opt_expr, uid0, base):
         _viol(acc, base, opt_expr, src, init_expr, [], "init", kind, msg)
     seen = {state_key(inst0)}
@@ -353,11 +431,19 @@ def run_shard(shard, tier):
             src_after = state_key(inst)
             is_copy = stmt.startswith("c = s.copy()")
             acc.outcomes["raised:" + type(raised).__name__ if raised else "ok"] += 1
-            whole_immutable = "immutable=True" in opt_expr or "immutable=True" in init_expr
-            if whole_immutable and base == "Schema":
+            # Schema instances keep the options they were parsed with; an attribute-based DataClass documents no such
+            # per-instance options, so only its class options count
+            whole_immutable = "immutable=True" in opt_expr or (base == "Schema" and "immutable=True" in init_expr)
+            if whole_immutable and (base == "Schema" or not is_copy):
                 changed = e.get("c") if is_copy else cur
-                # the data of a Schema is its mapping; other attributes are plain Python attributes of the object
-                if changed is not None and isinstance(changed, type(inst)) and state_key(changed)[0] != before[0]:
+                # the data of a Schema is its mapping, the data of a DataClass its field attributes; other attributes
+                # are plain Python attributes of the object
+                if base == "Schema":
+                    differs = changed is not None and isinstance(changed, type(inst)) and state_key(changed)[0] != before[0]
+                else:
+                    fa = lambda o: canon({k: v for k, v in snapshot(o)[1].items() if k in FIELDS})
+                    differs = isinstance(changed, type(inst)) and fa(changed) != fa(restore(cls, snap))
+                if differs:
                     _viol(acc, base, opt_expr, src, init_expr, list(hist) + [stmt], label,
                           ("copy-" if is_copy else "") + "immutable-instance-changed",
                           "the instance is immutable (options of the instance) but the operation changed " +
@@ -410,12 +496,12 @@ def _viol(acc, base, opt_expr, src, init_expr, hist, label, kind, msg):
     opname = "".join(ch for ch in opname.split("[")[0] if ch.isalpha() or ch in "._|= ") .strip()
     if label.startswith("s[") or label.startswith("del s["):
         opname = label.split("[")[0] + "[]"
-    fp = f"C07|{base}|{opt_expr or 'default'}|{opname}|{kind}"
+    fp = f"C07|{base}{'' if _CUR_MODEL[0] == 'A' else '-inherited'}|{opt_expr or 'default'}|{opname}|{kind}"
     script = "\n".join([
         "import sys", "sys.path.insert(0, '/verif')", "from utmc.ns import *", "from utmc.props import c07",
-        f"cls, src, env = c07.build_class({base!r}, {opt_expr!r})", "print(src)",
+        f"c07.use_model({_CUR_MODEL[0]!r})", f"cls, src, env = c07.build_class({base!r}, {opt_expr!r})", "print(src)",
         f"s = c07.rebuild(cls, {init_expr!r}, {hist[:-1]!r}, env)",
-        "uid0 = (dict(s) if isinstance(s, dict) else s.__dict__).get('uid')",
+        "uid0 = (dict(s) if isinstance(s, dict) else s.__dict__).get('uid' if c07._CUR_MODEL[0] == 'A' else 'userId')",
         "before = c07.state_key(s)", "e = dict(env); e['s'] = s; raised = None",
         "try:", f"    exec({hist[-1] if hist else 'pass'!r}, e)", "except Exception as ex:", "    raised = ex",
         "cur = e.get('c', e['s']) if " + repr(bool(hist and hist[-1].startswith('c = s.copy()'))) + " else e['s']",
